@@ -5,6 +5,7 @@
 import CrCube.Lemmas.SpecFacts
 import CrCube.Model.SliceApi
 import CrCube.Props.C06
+import CrCube.Lemmas.Slice1Var
 
 set_option linter.unusedSimpArgs false
 
@@ -54,6 +55,23 @@ theorem tableBase_spec_3d (T R C : Var) (hT : T.CM) (hR : R.CM) (hC : C.CM) (s :
       = .fin (specCount [T, R, C] s [k, i, j] [false, true, true]) := by
   rw [C06.partition_restricts T R C hT hR hC s k hk, tableBase_spec_2d R C hR hC _ i j hi hj,
     C06.restrict_specCount T R C hT hR hC]
+
+/-- strand bases: respondents with a valid answer (categorical: the table base, the same for
+    every row; multiple response: non-missing on that particular item) -/
+theorem strand_bases_spec (V : Var) (hV : V.CM) (s : Survey) (i : Nat) (hi : i < V.ext) :
+    (strandCounts [V] (cubeOf [V] s)).bases i = .fin (specCount [V] s [i] [true]) :=
+  CrCube.strand_bases_spec V hV s i hi
+
+/-- categorical array (one variable, items × categories): the row base and the table base of
+    cell (i, j) are the respondents with a VALID answer on item i; the column base of an array
+    item is the cell itself (an array item is its own eligibility). -/
+theorem ca_bases_spec (V : Var) (hV : V.IsCA) (s : Survey) (i j : Nat) (hi : i < V.n) :
+    (sliceCounts [V] (cubeOf [V] s) 0).rowBases i j = .fin (specCount [V] s [i, j] [false, true]) ∧
+    (sliceCounts [V] (cubeOf [V] s) 0).tableBases i j = .fin (specCount [V] s [i, j] [true, true]) ∧
+    (sliceCounts [V] (cubeOf [V] s) 0).columnBases i j = (sliceCounts [V] (cubeOf [V] s) 0).counts i j := by
+  refine ⟨ca_rowBases_spec V hV s i j hi false, ?_, ca_columnBases_eq_counts V hV _ i j⟩
+  rw [ca_tableBases_eq_rowBases V hV]
+  exact ca_rowBases_spec V hV s i j hi true
 
 /-- the unweighted bases are the same statements over the all-weights-1 survey, i.e. they count
     respondents (instantiate `s := unweight s` above and use this) -/
